@@ -2,7 +2,7 @@
    L0 = Staged.v (reference: stack of staging levels over an ordered map),
    L1 = VLog.v (key table + append-only value log with old links: the mechanism shared by ART and RBT). *)
 From Verif Require Import MemBuf.Model MemBuf.Art MemBuf.ProofsArt MemBuf.ProofsArtIns MemBuf.ProofsArtIns2
-  MemBuf.ProofsArtMap MemBuf.ProofsArtL1 MemBuf.ProofsKMap MemBuf.ProofsLog MemBuf.ProofsSim MemBuf.ProofsObs
+  MemBuf.ProofsArtMap MemBuf.ProofsArtL1 MemBuf.Batched MemBuf.ProofsBatched MemBuf.ProofsBatchedL0 MemBuf.ProofsKMap MemBuf.ProofsLog MemBuf.ProofsSim MemBuf.ProofsObs
   MemBuf.ProofsSet MemBuf.ProofsRevert MemBuf.ProofsStep MemBuf.ProofsProps.
 
 (* 1. Refinement.  Over ALL operation sequences — mutators and observers, valid and invalid handles /
@@ -230,6 +230,43 @@ Proof.
 Qed.
 Example l2_long_prefix : keys_of_tree (build [long_p ++ [1%N]; long_p ++ [0%N]; firstn 21 long_p]) =
                          [firstn 21 long_p; long_p ++ [0%N]; long_p ++ [1%N]].
+Proof. vm_compute. reflexivity. Qed.
+
+(* 8. The batched snapshot iterator (GetSnapshot().BatchedSnapshotIter: a fresh plain iterator per batch of 32, 64,
+   ... 4096 entries, resumed from lastKey ++ [0x00] forward and from the exclusive upper bound lastKey in reverse,
+   ending at the empty key) returns exactly the plain snapshot iteration, for EVERY sorted snapshot, every pair of
+   bounds (empty = unbounded) and both directions. *)
+Theorem C08_batched_iter_equals_plain :
+  forall snap rv lo hi, ksorted snap -> batched (S (length snap)) snap rv lo hi = plain snap rv lo hi.
+Proof. exact batched_ok. Qed.
+Print Assumptions C08_batched_iter_equals_plain.
+
+(* ... in particular over the snapshot of the reference model after ANY operation sequence: the batched iterator
+   yields what OSnapIter yields *)
+Theorem C08_batched_snapshot_iter :
+  forall ops rv lo hi,
+    let s0 := exec0 init0 ops in
+    RKVs (batched (S (length (snapshot0 s0))) (snapshot0 s0) rv lo hi) = obs0 (OSnapIter rv lo hi) s0.
+Proof.
+  intros ops rv lo hi s0. destruct (C08_L1_refines_L0 ops) as [_ HS]. cbn [obs0]. f_equal.
+  exact (batched_snapshot_ok _ _ rv lo hi HS).
+Qed.
+Print Assumptions C08_batched_snapshot_iter.
+
+(* why lastKey ++ [0x00]: it is the immediate successor of lastKey in bytes.Compare order *)
+Theorem C08_resume_key_is_successor : forall a k, lex_leb (a ++ [0%N]) k = lex_ltb a k.
+Proof. exact succ_key. Qed.
+Print Assumptions C08_resume_key_is_successor.
+
+(* batches really happen: 40 keys (more than the first batch of 32) incl. the empty key and a key that is a prefix
+   of its successor *)
+Definition batch_snap : kmap val :=
+  ([], [1%N]) :: ([0%N], [2%N]) :: ([0%N; 0%N], [3%N]) :: map (fun i => ([N.of_nat i], [9%N])) (seq 1 37).
+Example batch_snap_sorted : ksorted batch_snap.
+Proof. vm_compute. repeat split; repeat constructor. Qed.
+Example batched_two_batches_fwd : fwd 41 batch_snap [] [] 32 = batch_snap /\ length batch_snap = 40%nat.
+Proof. vm_compute. split; reflexivity. Qed.
+Example batched_reverse_ends_at_empty_key : bwd 41 batch_snap [] [] 32 = rev batch_snap.
 Proof. vm_compute. reflexivity. Qed.
 
 (* ---- non-vacuity ---- *)
